@@ -1,5 +1,6 @@
 import Operon.Model.Proto
 import Operon.Model.Immune
+import Operon.Model.ImmuneWindow
 /-! Line-protocol driver for the surveillance model (C17).
 
 Fingerprint = 10 tokens `lenMean lenStd timeMean timeStd confMean confStd vocab struct errRate canary|none`.
@@ -38,14 +39,19 @@ structure DSt where
   treg : Treg := ⟨[], 100⟩
   tcfg : ThymusCfg := ⟨10, 2, 1 / 2⟩
   samples : List Peptide := []
-  sys : Sys := Sys.init 10 2 (1 / 2) ⟨[], 100⟩ 1000
-  /-- agents whose display is a real window (`dreg`), with the standard deviations of the current window -/
-  displays : List (Nat × Display × Sds) := []
+  /-- the pipeline together with the real windows (`dreg` / `rreg` / `creg`) and the standard deviations of each window:
+      the model the `c17_window_*` theorems speak about -/
+  w : WSys := WSys.init 10 2 (1 / 2) ⟨[], 100⟩ 1000
   /-- keys of `ImmuneSystem.displays` in insertion order -/
   regs : List Nat := []
   /-- `ImmuneSystem.window_size` / `min_observations`: what `register_agent` hands to the display it creates -/
   winSize : Int := 100
   minObs : Int := 10
+
+def DSt.sys (st : DSt) : Sys := st.w.sys
+
+/-- a pipeline operation that does not concern the windows -/
+def DSt.withSys (st : DSt) (s : Sys) : DSt := { st with w := ⟨s, st.w.win⟩ }
 
 def natList (s : String) : List Nat :=
   if s = "-" then [] else (s.splitOn ",").map (natD ·)
@@ -146,8 +152,8 @@ def digest (st : DSt) : String :=
   joinSp ([s!"mem={mem}", s!"ord={ord}", s!"cap={s.mem.cap}"] ++ ags)
 
 def nobsOf (st : DSt) (a : Nat) : Nat :=
-  match st.displays.find? (·.1 == a) with
-  | some (_, d, _) => d.obs.length
+  match st.w.win a with
+  | some (d, _) => d.obs.length
   | none => 0
 
 def showHealth : Option HealthReport → String
@@ -157,14 +163,12 @@ def showHealth : Option HealthReport → String
 
 /-- `register_agent(a)`: a fresh `MHCDisplay(window_size, min_observations)` and a fresh tolerance record -/
 def realReg (st : DSt) (a : Nat) : DSt :=
-  { st with sys := st.sys.register a,
-            regs := if st.regs.contains a then st.regs else st.regs ++ [a],
-            displays := (a, ⟨st.winSize, st.minObs, [], []⟩, ⟨0, 0, 0⟩) :: st.displays.filter (·.1 != a) }
+  { st with w := st.w.step (.install a st.winSize st.minObs),
+            regs := if st.regs.contains a then st.regs else st.regs ++ [a] }
 
 /-- install the new window of agent `a`; what the agent shows now is what `generate_peptide` makes of it -/
-def putDisplay (st : DSt) (a : Nat) (d' : Display) (sd : Sds) (head tags : String) : DSt × String :=
-  ({ st with sys := st.sys.showPeptide a (d'.generate sd),
-             displays := (a, d', sd) :: st.displays.filter (·.1 != a) },
+def putDisplay (st : DSt) (op : WOp) (d' : Display) (sd : Sds) (head tags : String) : DSt × String :=
+  ({ st with w := st.w.step op },
     head ++ (if (d'.generate sd).isSome then " ## d:peptide" else " ## d:short") ++ tags)
 
 def step (st : DSt) (toks : List String) : DSt × String :=
@@ -215,71 +219,65 @@ def step (st : DSt) (toks : List String) : DSt × String :=
     | .raiseStats => (st, "raise:StatisticsError ## tr:raise")
     | .positive pr => ({ st with tcell := some (TCell.fresh pr 3 5) }, "positive ## tr:positive")
   | "sys" :: mn :: tol :: vt :: stab :: cap :: rules =>
-    ({ st with sys := Sys.init (intD mn) (ratOf tol) (ratOf vt) ⟨rules.map ruleOf, intD stab⟩ (intD cap),
-               displays := [], regs := [], winSize := 100, minObs := 10 }, "ok")
+    ({ st with w := WSys.init (intD mn) (ratOf tol) (ratOf vt) ⟨rules.map ruleOf, intD stab⟩ (intD cap),
+               regs := [], winSize := 100, minObs := 10 }, "ok")
   | ["shadow"] => (st, "ok ## e:shadow")   -- other objects come alive and live their own history: nothing is shared
   | ["sysdef"] =>
     -- `ImmuneSystem()`: min_training_samples 10, Thymus(tolerance 2, variance_threshold 0.5), RegulatoryTCell(no rules,
     -- stability 100), ImmuneMemory(capacity 1000), window 100, min_observations 10
-    ({ st with sys := Sys.init 10 2 (1 / 2) ⟨[], 100⟩ 1000, displays := [], regs := [], winSize := 100, minObs := 10 },
+    ({ st with w := WSys.init 10 2 (1 / 2) ⟨[], 100⟩ 1000, regs := [], winSize := 100, minObs := 10 },
       "ok ## e:sysdef")
   | ["sysw", w, m] => ({ st with winSize := intD w, minObs := intD m }, "ok")
   | ["rreg", a] => (realReg st (natD a), "ok ## e:rreg")
   | ["creg", a] => (realReg st (natD a), "ok ## e:creg")
   | ["cexec", a, out, sk, ws, ln, sl, stt, sc] =>
-    match st.displays.find? (·.1 == natD a) with
+    match st.w.win (natD a) with
     | none => (st, if st.regs.contains (natD a) then "no-display"
         else if out == "fail" then "failed unrecorded ## e:cexec-unregistered" else "ok unrecorded ## e:cexec-unregistered")
-    | some (_, d, _) =>
+    | some (d, _) =>
       if out == "fail" then (st, s!"failed n={d.obs.length} ## e:cexec-failed")
       else
         let ob : Ob := ⟨out == "text" || out == "brk", natD ln, natList ws, natD sk, 0, 1, none⟩
         let d' := d.record ob
         let sd : Sds := ⟨ratOf sl, ratOf stt, ratOf sc⟩
-        ({ st with sys := st.sys.showPeptide (natD a) (d'.generate sd),
-                   displays := (natD a, d', sd) :: st.displays.filter (·.1 != natD a) },
+        ({ st with w := st.w.step (.record (natD a) ob sd) },
           s!"ok n={d'.obs.length} ## e:cexec" ++ (if (d'.generate sd).isSome then " d:peptide" else " d:short") ++
             (if d'.obs.length ≤ d.obs.length then " d:evicted" else ""))
   | ["reg", a] =>
-    ({ st with sys := st.sys.register (natD a), displays := st.displays.filter (·.1 != natD a),
+    ({ st with w := st.w.step (.sys (.register (natD a))),
                regs := if st.regs.contains (natD a) then st.regs else st.regs ++ [natD a] }, "ok")
   | ["dreg", a, ws, mo] =>
-    ({ st with sys := st.sys.register (natD a),
-               regs := if st.regs.contains (natD a) then st.regs else st.regs ++ [natD a],
-               displays := (natD a, ⟨intD ws, intD mo, [], []⟩, ⟨0, 0, 0⟩) :: st.displays.filter (·.1 != natD a) }, "ok")
+    ({ st with w := st.w.step (.install (natD a) (intD ws) (intD mo)),
+               regs := if st.regs.contains (natD a) then st.regs else st.regs ++ [natD a] }, "ok")
   | ["obs", a, out, sk, ws, ln, tm, cf, er, sl, stt, sc] =>
-    match st.displays.find? (·.1 == natD a) with
+    match st.w.win (natD a) with
     | none => (st, if st.regs.contains (natD a) then "no-display" else "raise:ValueError ## e:unregistered")
-    | some (_, d, _) =>
+    | some (d, _) =>
       let ob : Ob := ⟨out == "text" || out == "brk", natD ln, natList ws, natD sk, ratOf tm, ratOf cf,
         if er == "-" || er == "empty" then none else some (natD er)⟩
       let d' := d.record ob
       let sd : Sds := ⟨ratOf sl, ratOf stt, ratOf sc⟩
-      ({ st with sys := st.sys.showPeptide (natD a) (d'.generate sd),
-                 displays := (natD a, d', sd) :: st.displays.filter (·.1 != natD a) },
+      ({ st with w := st.w.step (.record (natD a) ob sd) },
         s!"ok n={d'.obs.length}" ++ (if (d'.generate sd).isSome then " ## d:peptide" else " ## d:short") ++
           (if d'.obs.length ≤ d.obs.length then " d:evicted" else ""))
   | ["canary", a, b] =>
-    match st.displays.find? (·.1 == natD a) with
+    match st.w.win (natD a) with
     | none => (st, if st.regs.contains (natD a) then "no-display" else "raise:ValueError ## e:unregistered")
-    | some (_, d, sd) =>
-      let d' := d.recordCanary (boolOf b)
-      ({ st with sys := st.sys.showPeptide (natD a) (d'.generate sd),
-                 displays := (natD a, d', sd) :: st.displays.filter (·.1 != natD a) }, "ok ## d:canary")
+    | some _ => ({ st with w := st.w.step (.canary (natD a) (boolOf b)) }, "ok ## d:canary")
   | ["show", a, "none"] =>
-    if (st.displays.find? (·.1 == natD a)).isSome then (st, "bad-op")
-    else if (st.sys.agents (natD a)).registered then ({ st with sys := st.sys.showPeptide (natD a) none }, "ok")
+    if (st.w.win (natD a)).isSome then (st, "bad-op")
+    else if (st.sys.agents (natD a)).registered then ({ st with w := st.w.step (.sys (.showP (natD a) none)) }, "ok")
     else (st, "unregistered")
   | "show" :: a :: fp =>
     match pepOf fp with
     | some p =>
-      if (st.displays.find? (·.1 == natD a)).isSome then (st, "bad-op")
-      else if (st.sys.agents (natD a)).registered then ({ st with sys := st.sys.showPeptide (natD a) (some p) }, "ok")
+      if (st.w.win (natD a)).isSome then (st, "bad-op")
+      else if (st.sys.agents (natD a)).registered then ({ st with w := st.w.step (.sys (.showP (natD a) (some p))) }, "ok")
       else (st, "unregistered")
     | none => (st, "bad-op")
   | ["train", a] =>
     let (s', o) := st.sys.train (natD a)
-    ({ st with sys := s' },
+    (st.withSys (s'),
       match o with
       | .sel .positive => "positive ## tr:positive"
       | .sel .anergic => "anergic ## tr:anergic"
@@ -306,25 +304,24 @@ def step (st : DSt) (toks : List String) : DSt × String :=
         | none => "p:tcell"
     let stored := if s'.mem.sigs.length > s.mem.sigs.length then " p:stored"
       else if s'.clock = s.clock + 2 then " p:stored-pruned" else ""
-    ({ st with sys := s' },
+    (st.withSys (s'),
       match o with
       | .raiseValue => "raise:ValueError ## " ++ path
       | .raiseCond => "raise:RuntimeError" ++ tail ++ " ## " ++ path ++ " p:cond-raised"
       | .resp r => showResp r ++ tail ++ " ## " ++ path ++ " " ++ respTags "p" r ++ stored)
-  | ["pflag", a, b] => if reasonOk b then ({ st with sys := st.sys.flag (natD a) (truthy b) }, "ok") else (st, "bad-op")
+  | ["pflag", a, b] => if reasonOk b then (st.withSys (st.sys.flag (natD a) (truthy b)), "ok") else (st, "bad-op")
   | ["dclear", a] =>
-    match st.displays.find? (·.1 == natD a) with
+    match st.w.win (natD a) with
     | none => (st, "no-display")
-    | some (_, d, sd) =>
+    | some (d, sd) =>
       let d' := d.clear
-      ({ st with sys := st.sys.showPeptide (natD a) (d'.generate sd),
-                 displays := (natD a, d', sd) :: st.displays.filter (·.1 != natD a) },
+      ({ st with w := st.w.step (.clear (natD a)) },
         "ok n=0" ++ (if (d'.generate sd).isSome then " ## d:peptide" else " ## d:short") ++ " d:cleared")
   | ["dcan", a, how] =>
     -- `display.canary_results` mutated / re-assigned by hand (not through `record_canary_result`)
-    match st.displays.find? (·.1 == natD a) with
+    match st.w.win (natD a) with
     | none => (st, "no-display")
-    | some (_, d, sd) =>
+    | some (d, sd) =>
       let l : Option (List Bool) :=
         if how == "a1" then some (d.canaries ++ [true])
         else if how == "a0" then some (d.canaries ++ [false])
@@ -334,19 +331,19 @@ def step (st : DSt) (toks : List String) : DSt × String :=
         else none
       match l with
       | none => (st, "bad-op")
-      | some l => putDisplay st (natD a) (d.setCanaries l) sd s!"ok c={l.length}" " d:canary-by-hand"
+      | some l => putDisplay st (.setCanaries (natD a) l) (d.setCanaries l) sd s!"ok c={l.length}" " d:canary-by-hand"
   | ["dset", a, what, k] =>
-    match st.displays.find? (·.1 == natD a) with
+    match st.w.win (natD a) with
     | none => (st, "no-display")
-    | some (_, d, sd) =>
-      if what == "window" then putDisplay st (natD a) (d.setWindow (intD k)) sd "ok" " d:set-window"
-      else if what == "min" then putDisplay st (natD a) (d.setMinObs (intD k)) sd "ok" " d:set-min"
+    | some (d, sd) =>
+      if what == "window" then putDisplay st (.setWindow (natD a) (intD k)) (d.setWindow (intD k)) sd "ok" " d:set-window"
+      else if what == "min" then putDisplay st (.setMinObs (natD a) (intD k)) (d.setMinObs (intD k)) sd "ok" " d:set-min"
       else (st, "bad-op")
   | ["dobs", a, how, sl, stt, sc] =>
     -- `display.observations` mutated / re-assigned by hand; the three stdevs of the window afterwards come on the line
-    match st.displays.find? (·.1 == natD a) with
+    match st.w.win (natD a) with
     | none => (st, "no-display")
-    | some (_, d, _) =>
+    | some (d, _) =>
       let l : Option (List Ob) :=
         if how == "pop0" then some (d.obs.drop 1)
         else if how == "dellast" then some (d.obs.take (d.obs.length - 1))
@@ -354,29 +351,31 @@ def step (st : DSt) (toks : List String) : DSt × String :=
         else none
       match l with
       | none => (st, "bad-op")
-      | some l => putDisplay st (natD a) (d.setObs l) ⟨ratOf sl, ratOf stt, ratOf sc⟩ s!"ok n={l.length}" " d:obs-by-hand"
+      | some l =>
+        putDisplay st (.setObs (natD a) l ⟨ratOf sl, ratOf stt, ratOf sc⟩) (d.setObs l) ⟨ratOf sl, ratOf stt, ratOf sc⟩
+          s!"ok n={l.length}" " d:obs-by-hand"
   | ["mrecall", a, v, sh] =>
     let (s', r) := st.sys.recall (natD a) (natD v) (natD sh)
-    ({ st with sys := s' },
+    (st.withSys (s'),
       match r with
       | some x => s!"hit {showLevel x.level} {showAction x.action} ## m:recall-hit"
       | none => "miss ## m:recall-miss")
-  | ["preset", a] => ({ st with sys := st.sys.resetT (natD a) false }, "ok")
-  | ["presetfa", a] => ({ st with sys := st.sys.resetT (natD a) true }, "ok")
-  | ["unrec", a] => ({ st with sys := st.sys.dropRecord (natD a) }, "ok")
-  | ["pset", a, "rep", k] => ({ st with sys := st.sys.configT (natD a) (·.setRep (intD k)) }, "ok")
-  | ["pset", a, "anergy", k] => ({ st with sys := st.sys.configT (natD a) (·.setAnergy (intD k)) }, "ok")
+  | ["preset", a] => (st.withSys (st.sys.resetT (natD a) false), "ok")
+  | ["presetfa", a] => (st.withSys (st.sys.resetT (natD a) true), "ok")
+  | ["unrec", a] => (st.withSys (st.sys.dropRecord (natD a)), "ok")
+  | ["pset", a, "rep", k] => (st.withSys (st.sys.configT (natD a) (·.setRep (intD k))), "ok")
+  | ["pset", a, "anergy", k] => (st.withSys (st.sys.configT (natD a) (·.setAnergy (intD k))), "ok")
   | ["pset", ag, "profile", a, b, c, d, e, f, em, vs, ss, cm] =>
-    ({ st with sys := st.sys.configT (natD ag) (·.setProfile
-      ⟨ratOf a, ratOf b, ratOf c, ratOf d, ratOf e, ratOf f, ratOf em, natList vs, natList ss, ratOf cm⟩) }, "ok")
-  | "gset" :: stab :: rules => ({ st with sys := st.sys.setTreg ⟨rules.map ruleOf, intD stab⟩ }, "ok")
-  | ["mset", c] => ({ st with sys := st.sys.setCap (intD c) }, "ok")
-  | ["sset", tol, vt] => ({ st with sys := st.sys.setThymus (ratOf tol) (ratOf vt) }, "ok ## e:sset")
-  | ["updated", a] => ({ st with sys := st.sys.markUpdated (natD a) }, "ok")
-  | ["expire"] => ({ st with sys := st.sys.expire }, "ok")
+    (st.withSys (st.sys.configT (natD ag) (·.setProfile
+      ⟨ratOf a, ratOf b, ratOf c, ratOf d, ratOf e, ratOf f, ratOf em, natList vs, natList ss, ratOf cm⟩)), "ok")
+  | "gset" :: stab :: rules => (st.withSys (st.sys.setTreg ⟨rules.map ruleOf, intD stab⟩), "ok")
+  | ["mset", c] => (st.withSys (st.sys.setCap (intD c)), "ok")
+  | ["sset", tol, vt] => (st.withSys (st.sys.setThymus (ratOf tol) (ratOf vt)), "ok ## e:sset")
+  | ["updated", a] => (st.withSys (st.sys.markUpdated (natD a)), "ok")
+  | ["expire"] => (st.withSys (st.sys.expire), "ok")
   | ["pruneold", h] =>
     let s' := st.sys.pruneOld (natD h)
-    ({ st with sys := s' }, s!"ok mem={s'.mem.sigs.length}" ++
+    (st.withSys (s'), s!"ok mem={s'.mem.sigs.length}" ++
       (if s'.mem.sigs.length < st.sys.mem.sigs.length then " ## m:pruned-old" else " ## m:prune-kept"))
   | "import" :: items =>
     let now : Int := ((st.sys.clock + 1 : Nat) : Int)
@@ -386,19 +385,19 @@ def step (st : DSt) (toks : List String) : DSt × String :=
         some ⟨natD a, natD v, natD sh, levelOf lv, actionOf ac, 0, now - ((natD age * 3600000000 : Nat) : Int)⟩
       | _ => none
     let s' := st.sys.importSigs data
-    ({ st with sys := s' }, s!"ok mem={s'.mem.sigs.length}" ++
+    (st.withSys (s'), s!"ok mem={s'.mem.sigs.length}" ++
       (if s'.mem.sigs.length < st.sys.mem.sigs.length + data.length then " ## m:import-full" else " ## m:imported"))
   | ["roundtrip"] =>
     -- persistence restart: export, drop everything (`prune_old(0)`), import the export
     let s' := (st.sys.pruneOld 0).importSigs st.sys.mem.sigs
-    ({ st with sys := s' }, s!"ok mem={s'.mem.sigs.length} ## m:roundtrip")
+    (st.withSys (s'), s!"ok mem={s'.mem.sigs.length} ## m:roundtrip")
   | ["reimport"] =>
     let s' := st.sys.importSigs st.sys.mem.sigs
-    ({ st with sys := s' }, s!"ok mem={s'.mem.sigs.length} ## m:reimport")
+    (st.withSys (s'), s!"ok mem={s'.mem.sigs.length} ## m:reimport")
   | ["peek", kind] =>
     -- a pure read: the state stays as it is (`Op.peek`)
     let s' := (st.sys.step .peek).1
-    let st' := { st with sys := s' }
+    let st' := st.withSys (s')
     let h := st.sys.health st.regs (nobsOf st)
     if kind == "health" then (st', showHealth h ++ " " ++ digest st' ++ " ## k:health")
     else if kind == "cell" then
@@ -425,12 +424,12 @@ def step (st : DSt) (toks : List String) : DSt × String :=
     | none => (st, "bad-op")
     | some m =>
       let s' := (st.sys.step (.forget m)).1
-      ({ st with sys := s' }, s!"ok mem={s'.mem.sigs.length}" ++
+      (st.withSys (s'), s!"ok mem={s'.mem.sigs.length}" ++
         (if s'.mem.sigs.length < n then " ## m:forgot" else " ## m:forgot-nothing"))
   | ["mforget", "agent", a] =>
     let n := st.sys.mem.sigs.length
     let s' := (st.sys.step (.forget (st.sys.mem.sigs.map fun x => x.agent != natD a))).1
-    ({ st with sys := s' }, s!"ok mem={s'.mem.sigs.length}" ++
+    (st.withSys (s'), s!"ok mem={s'.mem.sigs.length}" ++
       (if s'.mem.sigs.length < n then " ## m:forgot" else " ## m:forgot-nothing"))
   | _ => (st, "bad-op")
 
